@@ -57,10 +57,17 @@ def gen_cases(rng, tier):
         for k in (d - 1, d, d + 1):
             if k < 1: continue
             for p in sample(list(itertools.product(axr, repeat=k)), 25 if quick else 200): add("axes", "transpose %s %s" % (A(s), L(p)))
+            for p in sample(list(itertools.product(range(0, d + 1), repeat=k)), 12 if quick else 80): add("axes-unsigned", "transpose_u %s %s" % (A(s), L(p)))
         for a1 in range(-d - 2, d + 2):
             add("axes", "expand_dims %s I:%d" % (A(s), a1)); add("axes", "sum %s I:%d" % (A(s), a1)); add("axes", "flip %s I:%d" % (A(s), a1))
             add("axes", "roll %s I:%d I:%d" % (A(s), rng.randint(-4, 4), a1))
             add("axes", "norm_axis I:%d I:%d" % (a1, d))
+            if a1 >= 0:      # the same requests with UNSIGNED axis types (scalars and containers of size_t / unsigned / uint8_t)
+                add("axes-unsigned", "norm_axis_u I:%d I:%d" % (a1, d))
+                for a2 in range(0, d + 2):
+                    add("axes-unsigned", "moveaxis_u %s I:%d I:%d" % (A(s), a1, a2))
+                    add("axes-unsigned", "sums_u %s %s" % (A(s), L([a1, a2])))
+                    for k in ("u", "u8", "ua"): add("axes-unsigned", "norm_axes_%s %s I:%d" % (k, L([a1, a2]), d))
             for a2 in range(-d - 2, d + 2):
                 add("axes", "swapaxes %s I:%d I:%d" % (A(s), a1, a2)); add("axes", "moveaxis %s I:%d I:%d" % (A(s), a1, a2))
                 add("axes", "sums %s %s" % (A(s), L([a1, a2]))); add("axes", "norm_axes %s I:%d" % (L([a1, a2]), d))
@@ -124,4 +131,5 @@ def classify(line, impl, spec, model):
     """operation x what happened instead of the expected status"""
     t = line.split(" ")
     op = t[0] if t[0] not in ("pipe", "pipe2") else t[0] + "k" + t[2][2:]
+    op = re.sub(r"_(u|u8|ua)$", "", op)       # the same call site reached with an unsigned axis container
     return "%s:%s-instead-of-%s" % (op, _status(impl), _status(spec))
